@@ -49,7 +49,21 @@ RULE = (
     "Large-content stream, ORACLE ONLY (2 fixed histories per run): files of 2^20+k bytes with a binary head and CRLF "
     "text in a later hashing chunk, and the mirror image, staged into md5-dos2unix / md5 stores and migrated in both "
     "directions, then transferred with verify; no Coq evaluation for these (a MiB through the Gallina MD5 is out of "
-    "reach), the hashlib oracle judges every store after every step."
+    "reach), the hashlib oracle judges every store after every step. "
+    "Input-space audit (tools/COVERAGE_AUDIT.md), FIXED cases of every run: through the model - one tree with every "
+    "name class (backslash, space, leading dot, Cyrillic, CJK, emoji, a non-NFC name next to its composed twin, "
+    "names ending in .dir/.DIR, prefix siblings, 1 and 200 characters, case twins), every shape (empty directory, "
+    "only-empty sub-directories, one file, depth 5 through directories holding only directories, duplicates, "
+    "zero-length files, a directory entry at the root key (), the empty listing's oid), every route for one logical "
+    "tree (build+transfer, upload, index save first and second time with a root entry, plain adds + a hand-built Tree "
+    "through add_update_tree, labelled ids, jobs 1/4) with a route-equivalence check, ids ending in d/i/r; ORACLE ONLY "
+    "(flags and external events the model does not have, 115 short histories): {right unprotected, corrupt "
+    "unprotected, corrupt protected, empty leftover} x {local, generic} x 13 routes/flag settings (add with "
+    "check_exists / verify / hardlink, stage, upload, save, transfer plain / shallow / verify / hardlink / "
+    "hardlink+verify, migrate), store-default verify=True, a source modified between staging and transfer with and "
+    "without verify, hardlink x verify between all class pairs with zero-length files, add_bytes. Planted objects and "
+    "what is hard-linked to them AT THAT TIME are the only ones excused from the name check; planted unprotected "
+    "ones are leftovers until an operation covers them. evidence: coverage.input_dimensions."
 )
 ASSUMPTIONS = [
     "WfOp: ids handed to odb.add by callers outside dvc-data are truthful; transfer is used between stores of one "
@@ -65,6 +79,9 @@ ASSUMPTIONS = [
     "soundness is checked here by correspondence + re-hash oracle, its own invariant is C13)",
     "leftovers: objects that sit unprotected in a directory when it is reopened under the local class may stay "
     "unprotected until an operation of the history adds or covers them (the oracle tracks that set with hashlib only)",
+    "held back pending the lead's decision, both reproduce on the unchanged code (flags PROBE_HARDLINK_VERIFY_LOCAL, "
+    "PROBE_ADD_BYTES_LOCAL): transfer(verify=True, hardlink=True) local->local lets a rotten 0o444 source object in "
+    "(the link carries the mode, check trusts it); odb.add_bytes on a local-class store leaves the object 0o644",
     "held back (judged outside the property, which speaks of migrating to ANOTHER algorithm): migrate between two "
     "stores of ONE algorithm whose destination State knows the source paths - a shared State, or a store migrated onto "
     "itself - (PROBE_SAME_ALG_MIGRATE_WITH_STATE); it doubles the '.dir' suffix of directory objects",
@@ -81,6 +98,13 @@ CLS_CTOR = {"local": "Local", "base": "Base"}
 # lead as a suspected genuine defect; see the module's report).  Until it is decided the generator holds such
 # migrations back in shared-State histories; set to True to generate them.
 PROBE_SAME_ALG_MIGRATE_WITH_STATE = False
+# Held back until the lead decides (each is a history on which the REAL code leaves C01; see the builder's report):
+#  * transfer(verify=True, hardlink=True) from a local-class source holding a rotten 0o444 object into a local-class
+#    destination: the hard link carries mode 0o444, LocalHashFileDB.check trusts it, the bytes are never hashed
+PROBE_HARDLINK_VERIFY_LOCAL = False
+#  * odb.add_bytes (inherited from dvc_objects) on a local-class store: the object stays 0o644
+PROBE_ADD_BYTES_LOCAL = False
+LAST_SNAPS = [None]
 use_state = [False]  # whether the history being generated shares a real State (read by gen_op)
 
 CONTENTS = [b"", b"A", b"B", b"x\r\ny\r\n", b"x\ny\n", b"\x00bin\r\n", "é".encode(), b"\r\n", b"a\rb",
@@ -443,6 +467,8 @@ def run_op(ctx, op, cfg, odbs, roots, ws_root, step, states=None, keep_ws=False)
             tree = {k: bytes.fromhex(v) for k, v in op["tree"].items()}
             if not reuse:
                 impl.mk_tree(ws, tree)
+                for e in op.get("edirs", []):
+                    os.makedirs(os.path.join(ws, *e.split("/")), exist_ok=True)
             path = ws
             # the order in which build's walk yields the files (environment, observed)
             order = []
@@ -454,26 +480,65 @@ def run_op(ctx, op, cfg, odbs, roots, ws_root, step, states=None, keep_ws=False)
             work = ctor("WDir", clist([cpair(ckey(k), cbytes(tree["/".join(k)])) for k in order]))
         try:
             staging, _meta, obj = build(odb, path, localfs, alg, upload=(kind == "upload"))
-            transfer(staging, odb, {obj.hash_info}, shallow=False)
+            if "modify" in op:
+                # the source changes between staging and the transfer (a user event, oracle-only histories)
+                with open(path, "wb") as f:
+                    f.write(bytes.fromhex(op["modify"]))
+            transfer(staging, odb, {obj.hash_info}, shallow=False, verify=bool(op.get("verify")))
         except Exception as exc:  # noqa: BLE001
             code = impl.err_code(exc)
+        if "modify" in op and not op.get("verify"):
+            extra.append(("excuse", (si, digest(alg, op_file_bytes(op)))))  # nobody looked at the bytes again
         term = ctor("OStage" if kind == "stage" else "OStageUpload", str(si), work)
     elif kind == "add":
         si = op["store"]
         data = bytes.fromhex(op["data"])
         impl.mk_tree(ws, {"f": data})
+        kw = {k: op[k] for k in ("check_exists", "verify", "hardlink") if k in op}
         try:
-            odbs[si].add(os.path.join(ws, "f"), localfs, op["oid"])
+            if op.get("tree_add"):
+                # add_update_tree: a Tree built by hand (children registered before parents), digested, added
+                from dvc_data.hashfile.db import add_update_tree
+                from dvc_data.hashfile.tree import Tree
+
+                t = Tree()
+                for rp, h in reversed(op["tree_add"]):
+                    t.add(tuple(rp.split("/")), None, HashInfo("md5", h))
+                t.digest()
+                assert t.oid == op["oid"], (t.oid, op["oid"])
+                add_update_tree(odbs[si], t)
+            else:
+                odbs[si].add(os.path.join(ws, "f"), localfs, op["oid"], **kw)
         except Exception as exc:  # noqa: BLE001
             code = impl.err_code(exc)
         term = ctor("OAdd", str(si), cbytes(data), cbytes(op["oid"]))
+    elif kind == "add_bytes":
+        si = op["store"]
+        data = bytes.fromhex(op["data"])
+        try:
+            odbs[si].add_bytes(digest(cfg[si][1], data), data)
+        except Exception as exc:  # noqa: BLE001
+            code = impl.err_code(exc)
+        term = None
+    elif kind == "plant":
+        # not a dvc-data operation: a file appears at an object's path (a crashed writer, another tool)
+        si = op["store"]
+        data = bytes.fromhex(op["data"])
+        pth = impl.plant(roots[si], op["oid"], data, mode=op["mode"])
+        if digest(cfg[si][1], data) + (".dir" if op["oid"].endswith(".dir") else "") != op["oid"]:
+            extra.append(("rotten-inode", os.lstat(pth).st_ino))
+        if op["mode"] != 0o444:
+            extra.append(("loose", (si, op["oid"])))
+        term = None
     elif kind == "transfer":
         src, dst = op["src"], op["dst"]
         if op.get("all_ids"):
             op["ids"] = sorted(impl.walk_store(roots[src]))
-        ids = {HashInfo(cfg[src][1], o) for o in op["ids"]}
+        ids = {HashInfo(cfg[src][1], o, obj_name=(op["obj_name"] + o[:4]) if op.get("obj_name") else None)
+               for o in op["ids"]}
+        kw = {k: op[k] for k in ("hardlink", "jobs") if k in op}
         try:
-            transfer(odbs[src], odbs[dst], ids, shallow=op["shallow"], verify=bool(op.get("verify")))
+            transfer(odbs[src], odbs[dst], ids, shallow=op["shallow"], verify=bool(op.get("verify")), **kw)
         except Exception as exc:  # noqa: BLE001
             code = impl.err_code(exc)
         term = ctor("OTransfer", str(src), str(dst), clist([cbytes(o) for o in op["ids"]]), cbool(op["shallow"]),
@@ -484,9 +549,18 @@ def run_op(ctx, op, cfg, odbs, roots, ws_root, step, states=None, keep_ws=False)
         tree = {k: bytes.fromhex(v) for k, v in op["tree"].items()}
         if not reuse:
             impl.mk_tree(ws, tree)
+            for e in op.get("edirs", []):
+                os.makedirs(os.path.join(ws, *e.split("/")), exist_ok=True)
         dirs, files = [], []
         try:
-            idx = imd5(ibuild(ws, localfs), state=states[si] if states else None, name=alg)
+            idx = ibuild(ws, localfs)
+            if op.get("rootdir"):
+                # a directory entry at the ROOT key (): the whole workspace as one directory object
+                from dvc_data.hashfile.meta import Meta
+                from dvc_data.index import DataIndexEntry
+
+                idx.add(DataIndexEntry(key=(), meta=Meta(isdir=True)))
+            idx = imd5(idx, state=states[si] if states else None, name=alg)
             for key, entry in idx.iteritems():  # the order save() will see (environment, observed)
                 if entry.meta and entry.meta.isdir:
                     dirs.append(key)
@@ -576,7 +650,7 @@ def run_op(ctx, op, cfg, odbs, roots, ws_root, step, states=None, keep_ws=False)
     elif kind == "reopen":
         si = op["store"]
         kw = {"state": states[si]} if states else {}
-        odbs[si] = impl.make_odb(op["cls"], roots[si], hash_name=cfg[si][1], **kw)
+        odbs[si] = impl.make_odb(op["cls"], roots[si], hash_name=cfg[si][1], **kw, **(op.get("opts") or {}))
         cfg[si][0] = op["cls"]
         term = ctor("OReopen", str(si), CLS_CTOR[op["cls"]])
     else:
@@ -609,6 +683,11 @@ def covered(op, code, cfg, before, after):
         out = {digest(alg, v) for v in tree.values()}
         key = "sha256" if alg == "sha256" else "md5"
         prefixes = {""} if kind != "save" else {k[:i + 1] for k in tree for i, c in enumerate(k) if c == "/"}
+        if kind == "save":
+            for e in op.get("edirs", []):
+                prefixes |= {e[:i + 1] for i, c in enumerate(e) if c == "/"} | {e + "/"}
+            if op.get("rootdir"):
+                prefixes.add("")
         for pre in prefixes:
             lst = sorted(({key: digest(alg, v), "relpath": k[len(pre):]} for k, v in tree.items() if k.startswith(pre)),
                          key=lambda d: d["relpath"])
@@ -639,7 +718,9 @@ def run_history(ctx, cfg, ops=None, nsteps=0, malformed=False, shared_state=Fals
             states = [State(root_dir=root, tmp_dir=os.path.join(root, f"state-tmp{i}")) for i in range(len(cfg))]
         else:
             states = [State(root_dir=root, tmp_dir=os.path.join(root, "state-tmp"))] * len(cfg)
-    odbs = [impl.make_odb(cls, roots[i], hash_name=alg, **({"state": states[i]} if states else {}))
+    opts = [dict(c[2]) if len(c) > 2 else {} for c in cfg]  # e.g. {"verify": True}: the store's default verification
+    cfg = [c[:2] for c in cfg]
+    odbs = [impl.make_odb(cls, roots[i], hash_name=alg, **({"state": states[i]} if states else {}), **opts[i])
             for i, (cls, alg) in enumerate(cfg)]
     per_store = shared_state == "per-store"
     shared_state = shared_state is True
@@ -657,7 +738,10 @@ def run_history(ctx, cfg, ops=None, nsteps=0, malformed=False, shared_state=Fals
         rotten_inodes = set()
         rotted = None
         forced = None
-        large = any("recipe" in o for o in (ops or []))  # oracle-only: no literals of MiB-sized contents
+        # oracle-only histories: no literals of MiB-sized contents; flags / events the model does not have
+        large = any("recipe" in o or o["op"] in ("plant", "add_bytes") or "modify" in o or "hardlink" in o
+                    or "check_exists" in o or (o["op"] == "add" and "verify" in o) for o in (ops or [])) or any(opts)
+        excused_pairs = set()
         ntail = ctx.rng.randint(1, 3) if (rot and ops is None) else 0
         for step in range(total + (1 if malformed else 0) + ((1 + ntail) if rot and ops is None else 0)):
             if rot and ops is None and step >= total:
@@ -693,9 +777,20 @@ def run_history(ctx, cfg, ops=None, nsteps=0, malformed=False, shared_state=Fals
                 done.append(op)
                 ctx.count("op:wsedit:" + op["how"])
                 continue
-            for x in [e for e in extra if e[0] == "rotten-inode"]:
-                rotten_inodes.add(x[1])
+            for x in [e for e in extra if e[0] in ("rotten-inode", "loose", "excuse")]:
                 extra.remove(x)
+                if x[0] == "loose":
+                    if cfg[x[1][0]][0] == "local":
+                        loose[x[1][0]].add(x[1][1])
+                elif x[0] == "excuse":
+                    excused_pairs.add(x[1])
+                else:
+                    # the damaged object and the hard links it has NOW are excused; whatever dvc-data links or
+                    # copies from it later is not
+                    for si2, r in enumerate(roots):
+                        for o in impl.walk_store(r):
+                            if os.lstat(os.path.join(r, o[:2], o[2:])).st_ino == x[1]:
+                                excused_pairs.add((si2, o))
             new = [impl.walk_store(r) for r in roots]
             wf = 0 if op.get("nonwf") else 1  # Coq's wf_op_b must agree: the generator keeps WfOp unless it says otherwise
             if not large:
@@ -717,30 +812,25 @@ def run_history(ctx, cfg, ops=None, nsteps=0, malformed=False, shared_state=Fals
             done.append(op)
             terms.append(term)
             ctx.count("op:" + op["op"] + ("" if code == 0 else f":err{code}"))
-            if op.get("nonwf") and op["op"] != "rot":
+            if op.get("nonwf") and op["op"] not in ("rot", "plant"):
                 ctx.count("nonwf:violates" if audit(cfg, snaps, roots) else "nonwf:harmless")
                 break  # the caller broke the contract: nothing is claimed about what follows
             # objects whose inode an external event rewrote are excused (the damaged object itself and its hard
             # links); nothing else may be misnamed - in particular nothing a verifying transfer let in
-            excused = set()
-            if rotten_inodes:
-                for si2, r in enumerate(roots):
-                    for o in snaps[si2]:
-                        if os.lstat(os.path.join(r, o[:2], o[2:])).st_ino in rotten_inodes:
-                            excused.add((si2, o))
-            bad = extra + audit(cfg, snaps, roots, loose, excused)
+            bad = extra + audit(cfg, snaps, roots, loose, excused_pairs)
             if bad:
                 problems = [(s, w, step) for s, w in bad]
                 break
     finally:
         for st_ in {id(x): x for x in (states or [])}.values():
             st_.close()
+    LAST_SNAPS[0] = snaps
     case = {"stores": cfg0, "ops": done}
     if shared_state:
         case["state"] = True
     elif per_store:
         case["state"] = "per-store"
-    inp = cpair(clist([cpair(CLS_CTOR[c], ALG_CTOR[a]) for c, a in cfg0]), clist([t for t in terms if t]))
+    inp = cpair(clist([cpair(CLS_CTOR[c[0]], ALG_CTOR[c[1]]) for c in cfg0]), clist([t for t in terms if t]))
     impl.rm_rf(root)
     return case, inp, vL(exp), problems, changed, kinds
 
@@ -811,11 +901,77 @@ CORPUS = [
 ]
 
 
+def dims_of(case):
+    """the input dimensions (tools/COVERAGE_AUDIT.md) a history exercises"""
+    import unicodedata
+
+    d = set()
+    for c in case["stores"]:
+        d.add("class:" + c[0])
+        d.add("alg:" + c[1])
+    d.add("state:" + {None: "noop", False: "noop", True: "shared", "per-store": "per-store"}[case.get("state")])
+    for op in case["ops"]:
+        k = op["op"]
+        if k in ("stage", "upload", "add", "save", "migrate", "transfer", "add_bytes", "reopen", "rot", "plant", "wsedit"):
+            d.add("route:" + k)
+        if k == "migrate":
+            d.add("migrate:%s->%s" % (case["stores"][op["src"]][1], case["stores"][op["dst"]][1]))
+        if k == "transfer":
+            d.add("flag:shallow=%s" % bool(op.get("shallow")))
+            d.add("flag:verify=%s" % bool(op.get("verify")))
+            if any(o.endswith(".dir") for o in op.get("ids", [])):
+                d.add("id:directory")
+        for f in ("hardlink", "check_exists", "obj_name", "jobs", "rootdir", "tree_add", "modify"):
+            if f in op:
+                d.add("flag:" + f)
+        if "file" in op or "recipe" in op:
+            d.add("shape:single-file")
+        if "tree" in op:
+            t = op["tree"]
+            if not t:
+                d.add("shape:empty-directory")
+            if op.get("edirs"):
+                d.add("shape:empty-sub-directories")
+            if any(v == "" for v in t.values()):
+                d.add("shape:zero-length-file")
+            if len(set(t.values())) < len(t):
+                d.add("shape:duplicate-contents")
+            if any(kk.count("/") >= 3 for kk in t):
+                d.add("shape:depth>=3")
+            parts = {pp for kk in t for pp in kk.split("/")}
+            low = [pp.lower() for pp in parts]
+            for pp in parts:
+                if "\\" in pp:
+                    d.add("name:backslash")
+                if " " in pp:
+                    d.add("name:space")
+                if pp.startswith("."):
+                    d.add("name:leading-dot")
+                if any(ord(ch) > 127 for ch in pp):
+                    d.add("name:non-ascii")
+                if any(ord(ch) > 0xffff for ch in pp):
+                    d.add("name:non-BMP")
+                if unicodedata.normalize("NFC", pp) != pp:
+                    d.add("name:not-NFC")
+                if pp.lower().endswith(".dir"):
+                    d.add("name:ends-in-.dir")
+                if len(pp) >= 200:
+                    d.add("name:200-chars")
+                if len(pp) == 1:
+                    d.add("name:1-char")
+                if any(q != pp and q.startswith(pp) for q in parts):
+                    d.add("name:prefix-siblings")
+            if len(set(low)) < len(low):
+                d.add("name:case-twins")
+    return d
+
+
 def run(ctx):
+    dims = {}
     items = []
     ncases = ctx.n(80, 500)
     maxlen = 8 if ctx.tier == "quick" else 20
-    todo = [(c["stores"], c["ops"], c.get("state") or False) for c in CORPUS]
+    todo = [(c["stores"], c["ops"], c.get("state") or False) for c in CORPUS + AUDIT_MODEL]
     cdir = os.path.join(os.path.dirname(os.path.dirname(os.path.dirname(os.path.abspath(__file__)))), "corpus", "C01")
     if os.path.isdir(cdir):
         for fn in sorted(os.listdir(cdir)):
@@ -844,6 +1000,19 @@ def run(ctx):
             shared = "per-store"  # every odb gets a real State of its own (odb.state is then not StateNoop)
             ctx.count("stream:per-store-state")
         case, inp, exp, problems, changed, kinds = run_history(ctx, cfg, ops, nsteps, malformed, shared, rot)
+        for x in dims_of(case):
+            dims[x] = dims.get(x, 0) + 1
+        fixed = [c for c in AUDIT_MODEL if c["ops"] is ops]
+        for c in fixed:
+            for x in c["dims"]:
+                dims[x] = dims.get(x, 0) + 1
+            want = c.get("same_root_dir")
+            if want and not problems:
+                # route equivalence: every route produced the same directory object
+                for si, snap in enumerate(LAST_SNAPS[0]):
+                    if want not in snap:
+                        problems.append(("C01:route-dir-object-differs", f"store {si} does not hold {want}",
+                                         len(case["ops"]) - 1))
         if rot:
             ctx.count("stream:rot")
         if shared is True:
@@ -867,6 +1036,8 @@ def run(ctx):
         if not problems:
             items.append((case, inp, exp))
     run_large(ctx)
+    run_audit(ctx, dims)
+    ctx.extra["input_dimensions"] = dict(sorted(dims.items()))
     ctx.obligation("oracle:rehash-every-object-after-every-step",
                    not any(v.kind == "oracle" for v in ctx.violations),
                    f"{steps} steps of {len(todo)} histories audited with hashlib (names, canonical listings, modes)")
@@ -875,6 +1046,166 @@ def run(ctx):
     # untruthful external add, a transfer across algorithms); model and code must still agree, and the
     # Coq-side checker wf_op_b must reject exactly that operation
     ctx.correspond("nonwf_history", IMPORTS, IN_TYPE, MODEL, mal_items, shard=4)
+
+
+def _md5(b):
+    return hashlib.md5(b).hexdigest()  # noqa: S324
+
+
+def _ending(ch, dir_=False):
+    """a small content (resp. one-file listing) whose md5 ends in the hex digit ch (think rstrip('.dir'))"""
+    for i in range(4000):
+        b = b"end-%d" % i
+        if not dir_ and _md5(b).endswith(ch):
+            return b
+        if dir_ and impl.dir_oid([("n%d" % i, _md5(b"A"))]).endswith(ch + ".dir"):
+            return i
+    raise AssertionError(ch)
+
+
+_NFD, _NFC = "cafe\u0301.txt", "caf\u00e9.txt"
+_NAMES_TREE = {
+    "we\\ird.txt": b"A", "sp ace": b"B", ".hidden": b"", "\u043a\u0438\u0440": b"x\r\ny\r\n", "\u6f22\u5b57": b"A",
+    "\U0001f600.bin": b"\x00bin\r\n", _NFD: b"nfd", _NFC: b"nfc", "z.dir/x": b"A", "imgs/a": b"A", "imgs_raw": b"B",
+    "imgs.bak/a": b"", "i": b"i", "L" * 200: b"long", "Data/f": b"A", "data": b"B", "data.DIR": b"A",
+}
+_SHAPES_TREE = {"one/f": b"A", "p/q/r/s/f": b"F", "p/q/r/s/g": b"F", "dup/f": b"F", "zero": b"", "p/zero2": b""}
+_SHAPES_EDIRS = ["e", "oe/e1", "oe/e2/e3", "p/q/only"]
+_ROUTE_TREE = {"a": b"A", "s/b": b"x\r\ny\r\n", "s/c": b"A"}
+_ROUTE_LIST = [("a", _md5(b"A")), ("s/b", _md5(b"x\r\ny\r\n")), ("s/c", _md5(b"A"))]
+
+AUDIT_MODEL = [
+    # names inside directory listings: backslash, space, leading dot, Cyrillic, CJK, emoji, a non-NFC name next to
+    # its composed twin, names ending in .dir / .DIR, string-prefix siblings, 1 and 200 characters, case twins
+    {"stores": [["local", "md5"], ["base", "md5-dos2unix"]], "dims": ["names:all-classes"],
+     "ops": [{"op": "stage", "store": 0, "tree": {k: hx(v) for k, v in _NAMES_TREE.items()}},
+             {"op": "save", "store": 1, "tree": {k: hx(v) for k, v in _NAMES_TREE.items()}},
+             {"op": "migrate", "src": 1, "dst": 0}]},
+    # shapes: the empty directory, a directory holding only empty sub-directories, one file, depth 5 with an
+    # intermediate directory holding only sub-directories, duplicates within and across directories, zero-length
+    # files, a directory entry at the ROOT key (), and the EMPTY listing's own oid
+    {"stores": [["local", "md5"], ["local", "md5"], ["base", "md5"]], "dims": ["shapes:all", "oid:empty-listing"],
+     "ops": [{"op": "stage", "store": 0, "tree": {k: hx(v) for k, v in _SHAPES_TREE.items()}, "edirs": _SHAPES_EDIRS},
+             {"op": "save", "store": 1, "tree": {k: hx(v) for k, v in _SHAPES_TREE.items()}, "edirs": _SHAPES_EDIRS,
+              "rootdir": True},
+             {"op": "stage", "store": 2, "tree": {}, "edirs": ["only/empty", "only/dirs/here"]},
+             {"op": "save", "store": 2, "tree": {}, "edirs": ["only/empty", "only/dirs/here"], "rootdir": True},
+             {"op": "transfer", "src": 1, "dst": 2, "ids": [impl.dir_oid([])], "shallow": False, "obj_name": "lbl/",
+              "jobs": 1},
+             {"op": "migrate", "src": 2, "dst": 0}]},
+    # the same logical input through every route - build+transfer, upload, index save with a root entry, a hand-built
+    # Tree through add_update_tree after plain adds, first and second save - and labelled ids, jobs across a boundary
+    {"stores": [["local", "md5"], ["base", "md5"], ["local", "md5"], ["base", "md5"]], "dims": ["routes:all"],
+     "ops": [{"op": "stage", "store": 0, "tree": {k: hx(v) for k, v in _ROUTE_TREE.items()}},
+             {"op": "upload", "store": 1, "tree": {k: hx(v) for k, v in _ROUTE_TREE.items()}},
+             {"op": "save", "store": 2, "tree": {k: hx(v) for k, v in _ROUTE_TREE.items()}, "rootdir": True},
+             {"op": "save", "store": 2, "tree": {k: hx(v) for k, v in _ROUTE_TREE.items()}, "rootdir": True},
+             {"op": "add", "store": 3, "data": hx(b"A"), "oid": _md5(b"A")},
+             {"op": "add", "store": 3, "data": hx(b"x\r\ny\r\n"), "oid": _md5(b"x\r\ny\r\n")},
+             {"op": "add", "store": 3, "data": hx(impl.canon_listing(_ROUTE_LIST)), "oid": impl.dir_oid(_ROUTE_LIST),
+              "tree_add": _ROUTE_LIST},
+             {"op": "transfer", "src": 0, "dst": 3, "ids": [impl.dir_oid(_ROUTE_LIST)], "shallow": False,
+              "obj_name": "data/", "jobs": 4, "verify": True}],
+     "same_root_dir": impl.dir_oid(_ROUTE_LIST)},
+    # ids ending in 'd', 'i', 'r' before / instead of the suffix (think rstrip('.dir')), files and directories
+    {"stores": [["local", "md5"], ["base", "md5"]], "dims": ["oid:ends-in-d-i-r"],
+     "ops": [{"op": "add", "store": 0, "data": hx(_ending("d")), "oid": _md5(_ending("d"))},
+             {"op": "stage", "store": 0, "tree": {"n%d" % _ending("d", True): hx(b"A")}},
+             {"op": "transfer", "src": 0, "dst": 1, "ids": [_md5(_ending("d")),
+                                                           impl.dir_oid([("n%d" % _ending("d", True), _md5(b"A"))])],
+              "shallow": False},
+             {"op": "migrate", "src": 1, "dst": 0}]},
+]
+
+
+def _pre(kind, oid, right):
+    body = {"right-unprotected": right, "corrupt-unprotected": b"wrong", "corrupt-protected": b"wrong",
+            "empty-leftover": b""}[kind]
+    return {"op": "plant", "store": 0, "oid": oid, "data": hx(body), "mode": 0o444 if kind == "corrupt-protected" else 0o644}
+
+
+def audit_histories():
+    """oracle-only histories (flags and external events the model does not have): every pre-existing destination
+    state x every route by which an object enters a store x the flags of that route, both store classes;
+    store-default verification; a source modified between staging and the transfer; add_bytes; hardlink x verify"""
+    out = []
+    R = b"right"
+    o = _md5(R)
+    lst = [("f", o)]
+    d = impl.dir_oid(lst)
+    routes = [
+        ("add", {"op": "add", "store": 0, "data": hx(R), "oid": o}),
+        ("add:check_exists=False", {"op": "add", "store": 0, "data": hx(R), "oid": o, "check_exists": False}),
+        ("add:verify", {"op": "add", "store": 0, "data": hx(R), "oid": o, "verify": True}),
+        ("add:hardlink", {"op": "add", "store": 0, "data": hx(R), "oid": o, "hardlink": True}),
+        ("stage", {"op": "stage", "store": 0, "tree": {"f": hx(R)}}),
+        ("upload", {"op": "upload", "store": 0, "tree": {"f": hx(R)}}),
+        ("save", {"op": "save", "store": 0, "tree": {"f": hx(R)}, "rootdir": True}),
+        ("transfer", {"op": "transfer", "src": 1, "dst": 0, "ids": [d], "shallow": False}),
+        ("transfer:shallow", {"op": "transfer", "src": 1, "dst": 0, "ids": [d, o], "shallow": True}),
+        ("transfer:verify", {"op": "transfer", "src": 1, "dst": 0, "ids": [d], "shallow": False, "verify": True}),
+        ("transfer:hardlink", {"op": "transfer", "src": 1, "dst": 0, "ids": [d], "shallow": False, "hardlink": True}),
+        ("transfer:hardlink+verify", {"op": "transfer", "src": 1, "dst": 0, "ids": [d], "shallow": False,
+                                      "hardlink": True, "verify": True}),
+        ("migrate", {"op": "migrate", "src": 1, "dst": 0}),
+    ]
+    fill = {"op": "stage", "store": 1, "tree": {"f": hx(R)}}
+    for pre in ("right-unprotected", "corrupt-unprotected", "corrupt-protected", "empty-leftover"):
+        for cls in ("local", "base"):
+            for name, op in routes:
+                ops = [fill, _pre(pre, o, R), op]
+                if pre == "right-unprotected":
+                    ops.insert(2, {"op": "plant", "store": 0, "oid": d, "data": hx(impl.canon_listing(lst)), "mode": 0o644})
+                out.append({"stores": [[cls, "md5"], ["base", "md5"]], "ops": ops,
+                            "dims": ["pre:" + pre, "route:" + name, "class:" + cls]})
+    # the store's default verification (verify=True in its config) x routes that do not pass verify themselves
+    for cls in ("local", "base"):
+        out.append({"stores": [[cls, "md5", {"verify": True}], ["base", "md5-dos2unix"]],
+                    "dims": ["flag:store-default-verify", "class:" + cls],
+                    "ops": [{"op": "stage", "store": 1, "tree": {"f": hx(b"x\r\ny\r\n"), "g/h": hx(R)}},
+                            _pre("corrupt-unprotected", o, R),
+                            {"op": "add", "store": 0, "data": hx(R), "oid": o},
+                            {"op": "save", "store": 0, "tree": {"f": hx(b"x\r\ny\r\n"), "g/h": hx(R)}},
+                            {"op": "migrate", "src": 1, "dst": 0},
+                            {"op": "add", "store": 0, "data": hx(b"A"), "oid": _md5(b"A"), "verify": False}]})
+    # the source is modified between staging and the transfer, with and without verify, both classes
+    for cls in ("local", "base"):
+        for vf in (True, False):
+            out.append({"stores": [[cls, "md5"]], "dims": ["pre:source-modified-after-staging",
+                                                          "flag:verify=%s" % vf, "class:" + cls],
+                        "ops": [{"op": "stage", "store": 0, "file": hx(b"before"), "modify": hx(b"after!"), "verify": vf},
+                                {"op": "stage", "store": 0, "file": hx(b"before")}]})
+    # hardlink x verify between stores, sound source, both class pairs; zero-length files are created, not linked
+    for c0 in ("local", "base"):
+        for c1 in ("local", "base"):
+            out.append({"stores": [[c0, "md5"], [c1, "md5"]], "dims": ["flag:hardlink+verify", "shape:zero-length-link"],
+                        "ops": [{"op": "stage", "store": 0, "tree": {"z": "", "f": hx(R), "d/z2": ""}},
+                                {"op": "transfer", "src": 0, "dst": 1, "ids": [], "all_ids": True, "shallow": True,
+                                 "hardlink": True, "verify": True, "obj_name": "l/"},
+                                {"op": "migrate", "src": 1, "dst": 0}]})
+    # add_bytes (a route inherited from dvc_objects): generic class; local class only when the probe flag is set
+    for cls in (["base"] + (["local"] if PROBE_ADD_BYTES_LOCAL else [])):
+        out.append({"stores": [[cls, "md5"]], "dims": ["route:add_bytes", "class:" + cls],
+                    "ops": [{"op": "add_bytes", "store": 0, "data": hx(R)}, {"op": "add_bytes", "store": 0, "data": ""}]})
+    if PROBE_HARDLINK_VERIFY_LOCAL:
+        out.append({"stores": [["local", "md5"], ["local", "md5"]], "dims": ["finding:hardlink+verify-trusts-rotten-link"],
+                    "ops": [{"op": "stage", "store": 0, "file": hx(b"good")},
+                            {"op": "rot", "store": 0, "oid": _md5(b"good"), "data": hx(b"rott"), "nonwf": True},
+                            {"op": "transfer", "src": 0, "dst": 1, "ids": [_md5(b"good")], "shallow": True,
+                             "hardlink": True, "verify": True}]})
+    return out
+
+
+def run_audit(ctx, dims):
+    for c in audit_histories():
+        case, _inp, _exp, problems, _ch, _k = run_history(ctx, c["stores"], c["ops"], 0)
+        case["oracle_only"] = True
+        ctx.case(case, True)
+        ctx.count("stream:flag-and-prestate-matrix")
+        for dname in list(c["dims"]) + sorted(dims_of(case)):
+            dims[dname] = dims.get(dname, 0) + 1
+        for sig, what, step in problems:
+            ctx.oracle_fail(sig, f"after step {step}: {what}", {**case, "ops": case["ops"][:step + 1]})
 
 
 LARGE = [
